@@ -23,13 +23,19 @@ import dns.set
 
 from harness.core import Ctx, VERIF
 
+try:
+    from harness.core import Stalled
+except ImportError:  # older core
+    class Stalled(BaseException):
+        pass
+
 RULE = (
     "cases come from one SplitMix64 state: operation histories of length 5..40 over four registers, operations drawn "
     "from every public method of Set/Rdataset (add, remove, discard, pop, clear, update, update_ttl, the four *_update "
     "methods and the operator forms |= &= -= ^= +=, the four copying forms and | & - ^ +, copy, index/slice get and "
     "delete, issubset/issuperset/isdisjoint/==, match, ImmutableRdataset wrapping), operands aliased (a op a) in about "
     "one case in five; Set histories over integers 0..7; Rdataset/RRset histories over pools of real records per type "
-    "(A, MX with case-variant and relative exchanges, TXT, CNAME and SOA singletons, RRSIG covering two types, CH TXT), "
+    "(A, MX with case-variant and relative exchanges, TXT, CNAME and SOA singletons, RRSIG and SIG covering A / NS / MX and the boundary type 0, CH TXT), "
     "TTLs from {0,1,5,60,300,3600,2^31-1,2^31,2^32-1}; every record also through other object routes (its GenericRdata twin via "
     "to_generic and via GenericRdata(class, type, wire), a re-parsed typed instance, a subclass instance), in the pools of "
     "the set histories and in the pair/triple universe; record pairs/triples from the same pools plus case-swapped texts of every "
@@ -80,7 +86,11 @@ def pools():
     sig = "{} 8 2 3600 20300101000000 20200101000000 12345 example. AAAA"
     P["RRSIG"] = [rd_text("IN", "RRSIG", sig.format("A")), rd_text("IN", "RRSIG", sig.format("A").replace("12345", "12346")),
                   rd_text("IN", "RRSIG", sig.format("NS")), rd_text("IN", "RRSIG", sig.format("NS").replace("example.", "EXAMPLE.")),
-                  rd_text("IN", "RRSIG", sig.format("MX"))]
+                  rd_text("IN", "RRSIG", sig.format("MX")),
+                  # the boundary value of the type-covered field: 0 (TYPE0 / NONE), which is also "no covered type yet"
+                  rd_text("IN", "RRSIG", sig.format("TYPE0")), rd_text("IN", "RRSIG", sig.format("TYPE0").replace("12345", "12347"))]
+    P["SIG"] = [rd_text("IN", "SIG", sig.format(t_)) for t_ in ("A", "NS", "TYPE0", "A")]
+    P["SIG"][3] = rd_text("IN", "SIG", sig.format("A").replace("12345", "12346"))
     P["CHTXT"] = [rd_text("CH", "TXT", x) for x in ('"a"', '"b"')]
     for lab in ("A", "MX", "TXT", "CNAME", "SOA", "RRSIG"):
         # the same records through other object routes (GenericRdata twins, re-parsed and subclass instances)
@@ -90,7 +100,7 @@ def pools():
 
 
 POOL_META = {  # label -> (rdclass, rdtype)
-    "A": (1, 1), "MX": (1, 15), "TXT": (1, 16), "CNAME": (1, 5), "SOA": (1, 6), "RRSIG": (1, 46), "CHTXT": (3, 16),
+    "A": (1, 1), "MX": (1, 15), "TXT": (1, 16), "CNAME": (1, 5), "SOA": (1, 6), "RRSIG": (1, 46), "SIG": (1, 24), "CHTXT": (3, 16),
 }
 
 
@@ -437,7 +447,7 @@ RDS_OPS = ["add", "add", "add", "add", "ttl", "rm", "disc", "pop", "clear", "del
 
 def gen_rds_script(rng):
     P = pools()
-    main = rng.choice(["A", "A", "MX", "MX", "TXT", "CNAME", "SOA", "RRSIG", "RRSIG"])
+    main = rng.choice(["A", "A", "MX", "MX", "TXT", "CNAME", "SOA", "RRSIG", "RRSIG", "SIG"])
     others = [main, main, main, main, rng.choice(list(P))]
     script = []
     flavor = rng.choice(["rds", "rds", "rrset", "mixed"])
@@ -445,8 +455,8 @@ def gen_rds_script(rng):
         lab = rng.choice(others)
         c, t = POOL_META[lab]
         cov = 0
-        if lab == "RRSIG" and rng.chance(1, 2):
-            cov = rng.choice([1, 2])
+        if lab in ("RRSIG", "SIG") and rng.chance(1, 2):
+            cov = rng.choice([1, 2, 15, 0])
         script.append(["new", r, c, t, cov, rng.choice(TTLS)])
     for r in range(4):
         for _ in range(rng.below(5)):
@@ -797,6 +807,10 @@ def run_rds_script(ctx, case, rep):
             ks = [rd_key(x) for x in r]
             if len(set(ks)) != len(ks):
                 fail("C07/Rdataset/duplicates", f"register {i}: {rds_state(r)}")
+            if int(r.rdtype) in (24, 46) and any(int(x.covers()) != int(r.covers) for x in r):
+                # a signature set holds signatures of one covered type, the one it reports (0 included)
+                fail("C07/Rdataset/covers/member-covers-differs", f"register {i}: {rds_state(r)} holds a record covering "
+                     f"{[int(x.covers()) for x in r]}")
             if i != written and rds_snapshot(r) != snap[i]:
                 # value semantics: copies, wrappers and results share nothing with their sources
                 fail("C07/Rdataset/isolation/other-object-changed", f"{op0} on register {written} changed register {i} to {rds_state(r)}")
@@ -1265,6 +1279,8 @@ def eval_setapi(ctx, a, b, rep):
                 try:
                     getattr(S, meth)(arg)
                 except BaseException as e:  # noqa: the injected one, or ValueError of remove()
+                    if isinstance(e, Stalled):
+                        raise
                     raised = e
                 fuse[0] = None
                 now = [h.v for h in S]
@@ -1299,7 +1315,7 @@ def eval_rdsapi(ctx, c, rep):
     rds_ = [P[lab][i] for i in idxs]
     cls_, typ_ = POOL_META[lab]
     singleton = typ_ in {int(x) for x in dns.rdatatype._singletons}
-    same_cov = typ_ != 46 or len({int(r.covers()) for r in rds_}) <= 1
+    same_cov = typ_ not in (24, 46) or len({int(r.covers()) for r in rds_}) <= 1
     exp_keys = []
     for r in rds_:
         if singleton:
@@ -1341,7 +1357,7 @@ def eval_rdsapi(ctx, c, rep):
             continue
         if [rd_key(x) for x in got] != exp_keys or got.ttl != ttl or not isinstance(got.ttl, int) \
                 or (int(got.rdclass), int(got.rdtype)) != (cls_, typ_) \
-                or (typ_ == 46 and int(got.covers) != int(rds_[0].covers())) or (typ_ != 46 and int(got.covers) != 0):
+                or (typ_ in (24, 46) and int(got.covers) != int(rds_[0].covers())) or (typ_ not in (24, 46) and int(got.covers) != 0):
             ctx.fail(f"C07/Rdataset/{rn}/spec", f"{rn}(ttl={ttl!r}, {len(rds_)} records) gave {rds_state(got)}", rep)
     d0 = dns.rdataset.Rdataset(cls_, typ_)
     if int(d0.covers) != 0 or d0.ttl != 0 or len(d0) != 0:
@@ -1351,7 +1367,7 @@ def eval_rdsapi(ctx, c, rep):
         return
     # RRset-only surface
     deleting = c["deleting"]
-    cov = int(rds_[0].covers()) if typ_ == 46 else 0
+    cov = int(rds_[0].covers()) if typ_ in (24, 46) else 0
     rr = dns.rrset.RRset(nm, cls_, typ_, cov, deleting)
     for r in rds_:
         rr.add(r, ttl)
@@ -1438,7 +1454,7 @@ def generate(ctx: Ctx, scale, rng):
         eval_case(ctx, c)
     P = pools()
     for _ in range(n(300)):
-        lab = rng.choice(["A", "MX", "TXT", "CNAME", "SOA", "RRSIG", "RRSIG", "CHTXT"])
+        lab = rng.choice(["A", "MX", "TXT", "CNAME", "SOA", "RRSIG", "RRSIG", "SIG", "CHTXT"])
         c = {"kind": "rdsapi", "label": lab, "idx": [rng.below(len(P[lab])) for _ in range(rng.range(1, 5))],
              "ttl": rng.choice(TTLS), "deleting": rng.choice([None, None, 254, 255, 0])}
         ctx.case(("rdsapi", str(c)), sample=c)
